@@ -17,6 +17,12 @@ C = {
  "C02": ("static analysis: decision-table extraction (path enumeration of loop-free classifiers) evaluated on enum cubes + dominance rules on MIR",
          "Decides the hard-break table on all (previous kind, current kind) cubes, that the table is consulted first and cannot be weakened, that the search honours Must/MustNot, that Break decisions become real newlines, the single-line-comment safety net as a decision table of the emission step (with the calls made on every path), the bracket-only zero entries of the spacing table, that token text changes only through the documented normalisations, each on its own token kind (who calls set_content, dispatch facts, partition / skip discipline of each re-assembler), and that the normalisers compare characters as characters (no byte-vs-byte comparison of UTF-8 text). Not the behaviour as a whole.",
          "Not decided: generic-bracket re-typing heuristics; full operator-pair gluing matrix; lines for which no wrapping is found keep input counters."),
+ "C03": ("static analysis: must-pass / ORDER rules and decision tables on MIR, one per mechanism the property is anchored in (several shared with C06, C09, C11, C16)",
+         "Decides structural necessary conditions of idempotence, not the fixpoint relation: the blank the line-comment normaliser inserts is accepted by its own blank test; `unchanged` is exact equality of (decoded input, formatter output) in files mode and check mode; every pass that can replace token text is registered before the pass that measures it; after the multi-line-string rewrite the cached lengths are re-read, every rewrite is reported and line-start blanks are removed after the last wrapping; the one surviving layout fact (blank-line group) is stored as clamp(_,1,2).",
+         "Not decided: that format(format(x)) == format(x) — a relation between two executions through the lexer's reading of the formatter's own layout."),
+ "C05": ("static analysis: decision tables and origin / value-class rules on MIR at the hand-over points the property is anchored in",
+         "Decides structural necessary conditions of block rendering, not the grouping of tokens into statements: format_line starts every top-level logical line with a forced break at (level indentations, 0 continuations) except the first line of the file; Decision::Break becomes >= 1 line break at the solution's indentation, Decision::Continue none; begin_style=Always_Wrap <-> break_before_begin=true, read only where the break before the first child line is decided; every finished logical line gets the level computed from the context stack and the next line starts at it.",
+         "Not decided: which tokens form a statement, the level arithmetic of the parser's context stack, the placement of child lines by the search."),
  "C04": ("static analysis: loop-progress dataflow with inter-procedural must-advance summaries over the resolved call graph; closed panic-site inventory with re-derived guards; call-graph SCC inventory",
          "Decides structural necessary conditions of termination / abort-freedom: progress witness on every cycle path of every parser/lexer/consolidator loop (closures and combinator parameters resolved, reviewed exceptions re-verified), every panic-capable site auto-verified or in a reviewed inventory keyed by canonical operands, search cut-off with fallback, recursion inventory (7 known findings: stack exhaustion), lexer dispatch totality, memoisation of the wrapper's recursion into child lines (a necessary condition of the polynomial-time clause). Six genuine defects were found with these rules and fixed. No running-time bound, no well-foundedness proof.",
          "Not decided: polynomial time; number of conditional-directive passes; the 150 reviewed (not re-derived) invariants; add/mul overflow asserts."),
@@ -65,8 +71,6 @@ C = {
 }
 
 NA = {
- "C03": "not applicable to static analysis: idempotence is a fixpoint relation between two executions through the lexer's reading of the formatter's own layout; no shape of the code implies it (its structural preconditions are checked under C01/C02/C06/C08).",
- "C05": "not applicable to static analysis: which tokens start a line and at which nesting level is the value computed by a 2.5 kLOC context-stack state machine and a best-first search for each input; tests already pin the level constants, the remaining failure modes are input-shape specific (begin_style plumbing is checked under C19.e).",
 }
 
 
@@ -97,7 +101,7 @@ def main():
         ],
         "checks": checks,
         "not_applicable": [{"property_id": k, "reason": v} for k, v in sorted(NA.items())],
-        "notes": "Family: static analysis only. Every claimed check decides structural clauses (necessary conditions visible in the shape of the resolved program) and says so; C03 and C05 are declined. Genuine defects found: 9 fixed in /repo (fix: commits), 7 recorded in known_findings.json (stack exhaustion by recursion).",
+        "notes": "Family: static analysis only. Every claimed check decides structural clauses (necessary conditions visible in the shape of the resolved program) and says so; for C03 and C05 only the mechanisms the properties are anchored in are decided (the fixpoint relation / the parser's grouping are not). Genuine defects found: 19 fix: commits in /repo (18 defects, one fix reworked), 8 recorded in known_findings.json (7 x stack exhaustion by recursion, 1 x stale child-line memo).",
     }
     json.dump(m, open(os.path.join(VERIF, "MANIFEST.json"), "w"), indent=1)
     print("wrote MANIFEST.json with %d checks, %d not applicable" % (len(checks), len(NA)))
